@@ -19,7 +19,7 @@ func init() {
 		Level: "exploration",
 		Rule: "well-formed generated streams (PAT before PMTs, multi-section and multi-packet units) x every number k of NextPacket/NextData/alternating calls before Rewind (0..total, all k for small streams, " +
 			"strided for larger) x {explicit, auto} x single and repeated rewinds x full and chunked seekable reads; the results after the rewind are compared with a fresh demuxer; " +
-			"plus 1..65 537 rewinds in a row over a held partial unit (stage many-rewinds); a fifth of the rewinds under a context cancelled just before, compared with a Demuxer created with that context; a quarter of the streams with a packet that lost its sync byte, errors compared word for word; distinct = hash of (stream, api, size mode, k); non-trivial = k>0",
+			"plus 1..65 537 rewinds in a row over a held partial unit (stage many-rewinds); a fifth of the rewinds under a context cancelled just before, compared with a Demuxer created with that context; a quarter of the streams with a packet that lost its sync byte, errors compared word for word; half of the streams with an observing PacketsParser whose groups are compared too, a third through a reader that reports io.EOF with its last bytes; a damaged table pending and a second set of packets held ready at the rewind (stale-ready); distinct = hash of (stream, api, size mode, k); non-trivial = k>0",
 		Assumptions: []string{"the reader is an in-memory seekable tap; streams satisfy the property's precondition (PAT precedes PMTs)"},
 		Shards:      32,
 		Run:         runC20,
@@ -27,6 +27,7 @@ func init() {
 			var out []string
 			need(m, &out, "rewinds_checked", 5000)
 			need(m, &out, "streams_with_a_damaged_packet", 40)
+			need(m, &out, "runs_with_eof_reported_with_the_last_bytes", 300)
 			need(m, &out, "rewind_state_mid_unit", 200)
 			need(m, &out, "rewind_state_sections_buffered", 50)
 			need(m, &out, "rewind_state_at_eof", 50)
@@ -130,6 +131,14 @@ func runC20(c *mon.Ctx) {
 			}
 		}
 	}
+	// a table unit whose section_length was damaged upwards stays pending until the packet that starts the next one, which - a
+	// table of one packet - flushes it (an error) and is complete itself: the Demuxer holds a second set of packets ready when the
+	// call returns. Rewinds at every point, with an observing PacketsParser: nothing of it is handed out after the rewind
+	for i := int64(0); i < c.Pick(60, 1200); i++ {
+		if c.Mine("stale-ready", i) {
+			staleReadyCase(c, i, c.Rng("stale-ready", i))
+		}
+	}
 	n := c.Pick(300, 30000)
 	for i := int64(0); i < n; i++ {
 		if !c.Mine("streams", i) {
@@ -170,8 +179,19 @@ func runC20(c *mon.Ctx) {
 		}
 		for _, api := range []string{"data", "packet", "alt"} {
 			for _, ps := range []int{188, 0} {
-				cfg := DemuxCfg{PacketSize: ps, Reader: "seek", API: api, Skipper: skipper}
-				fresh := RunDemux(s.Bytes, cfg)
+				// a third of the streams through a reader that reports io.EOF together with its last bytes (io.Reader allows it): what
+				// the last Read said besides its bytes is residue too
+				cfg := DemuxCfg{PacketSize: ps, Reader: "seek", API: api, Skipper: skipper, EOFWithData: i%3 == 1}
+				if cfg.EOFWithData {
+					c.Count("runs_with_eof_reported_with_the_last_bytes")
+				}
+				// half of the streams with an observing PacketsParser: the groups it is handed after a rewind are those it is handed
+				// on a new Demuxer
+				if i%2 == 0 && api != "packet" {
+					cfg.Groups = &GroupRec{}
+					c.Count("runs_with_an_observing_parser")
+				}
+				fresh := runWithGroups(s.Bytes, cfg)
 				if fresh.Panic != "" {
 					c.Violate("C20/fresh-run-panic", "streams", i, fresh.Panic, nil)
 					continue
@@ -359,6 +379,10 @@ func rewindCase(c *mon.Ctx, stage string, idx int64, s *gen.Stream, m *gen.Model
 		cfg.Ctx, cancelCtx = context.WithCancel(context.Background())
 		defer cancelCtx()
 	}
+	var before, after []string
+	if cfg.Groups != nil {
+		cfg.Groups.Sink = &before
+	}
 	dmx, tap := NewDemuxerFor(s.Bytes, cfg)
 	call := 0
 	step := func() (Item, bool) {
@@ -474,6 +498,9 @@ func rewindCase(c *mon.Ctx, stage string, idx int64, s *gen.Stream, m *gen.Model
 	}
 	// drain and compare with the fresh run
 	call = 0
+	if cfg.Groups != nil {
+		cfg.Groups.Sink = &after
+	}
 	var got []Item
 	for j := 0; j < fresh.Calls+40; j++ {
 		it, ok := step()
@@ -491,6 +518,84 @@ func rewindCase(c *mon.Ctx, stage string, idx int64, s *gen.Stream, m *gen.Model
 	if d := itemsEqual(got, fresh.Items); d != "" {
 		c.Violate("C20/differs-from-fresh:"+state+":"+cfg.API+":"+sizeCls(cfg.PacketSize), stage, idx, "after rewind vs fresh demuxer: "+d, data)
 	}
+	if cfg.Groups != nil {
+		if fmt.Sprint(after) != fmt.Sprint(fresh.Groups) {
+			c.Violate("C20/parser-groups-differ-from-fresh:"+state+":"+cfg.API, stage, idx, fmt.Sprintf("groups handed to a PacketsParser after the rewind: %q; on a new Demuxer: %q", after, fresh.Groups), data)
+		}
+		c.Count("rewinds_compared_through_a_packets_parser")
+	}
 	c.Count("rewinds_checked")
 	c.Case(mon.HashStr(fmt.Sprint(idx, cfg.API, cfg.PacketSize, k, k2, cfg.Chunk != nil)), k > 0)
+}
+
+// runWithGroups is RunDemux that also keeps the groups an observing PacketsParser was handed (cfg.Groups set).
+func runWithGroups(input []byte, cfg DemuxCfg) *DemuxRun {
+	var gs []string
+	if cfg.Groups != nil {
+		cfg.Groups.Sink = &gs
+	}
+	run := RunDemux(input, cfg)
+	run.Groups = gs
+	if cfg.Groups != nil {
+		cfg.Groups.Sink = nil
+	}
+	return run
+}
+
+func staleReadyCase(c *mon.Ctx, idx int64, r *rand.Rand) {
+	pid := uint16(0x1000)
+	if idx%3 == 0 {
+		pid = 0 // the tables are PATs
+	}
+	kind := refts.KindPMT
+	if pid == 0 {
+		kind = refts.KindPAT
+	}
+	mk := func(serial int) []byte {
+		sec := gen.SimpleSection(r, kind, serial, r.IntN(40))
+		if pid == 0 {
+			sec.Syntax.Data.PAT.Programs = []*astits.PATProgram{{ProgramNumber: 1, ProgramMapID: 0x1000}}
+		}
+		return gen.NewPSIUnit(r, pid, serial, []*astits.PSISection{sec}, 0, false).Payload
+	}
+	var units [][]byte
+	var pids []uint16
+	add := func(p uint16, b []byte) { pids, units = append(pids, p), append(units, b) }
+	if pid != 0 {
+		add(0, gen.PATFor(r, pid).Payload)
+	}
+	add(pid, mk(1))
+	dam := mk(2)
+	dam[3] += byte(20 + r.IntN(100)) // section_length (low byte) enlarged: the unit never looks complete
+	add(pid, dam)
+	add(pid, mk(3))
+	for k := 0; k < 1+r.IntN(3); k++ {
+		add(pid, mk(4+k))
+	}
+	var stream []byte
+	cc := map[uint16]uint8{}
+	for k, u := range units {
+		if len(u) > 184 {
+			return
+		}
+		b, _ := refts.EncodePacket(gen.BuildPacket(pids[k], cc[pids[k]], true, u, nil, true), nil)
+		cc[pids[k]]++
+		stream = append(stream, b...)
+	}
+	s := &gen.Stream{Bytes: stream}
+	for _, ps := range []int{188, 0} {
+		cfg := DemuxCfg{PacketSize: ps, Reader: "seek", API: "data", Groups: &GroupRec{}}
+		fresh := runWithGroups(stream, cfg)
+		if fresh.Panic != "" {
+			c.Violate("C20/fresh-run-panic", "stale-ready", idx, fresh.Panic, nil)
+			return
+		}
+		if len(fresh.Errors()) > 0 {
+			c.Count("stale_ready_streams_with_the_error_of_the_damaged_table")
+		}
+		for k := 0; k <= fresh.Calls; k++ {
+			rewindCase(c, "stale-ready", idx, s, nil, cfg, fresh, k, -1)
+		}
+	}
+	c.Count("stale_ready_streams")
 }
